@@ -94,6 +94,11 @@ pub trait Host {
     fn resolve_b_raw(&mut self, _key: ReqKey, _out: OutB) -> Option<Result<Outcome, String>> {
         None
     }
+    /// bridge only: send bytes that do not decode as an item of the live stream under `key`.
+    /// Some(true) = rejected as undecodable, as it must be
+    fn bad_item(&mut self, _key: ReqKey) -> Option<bool> {
+        None
+    }
     /// bridge only: (never, once, many) entries in the registry
     fn registry_kinds(&mut self) -> Option<(usize, usize, usize)> {
         None
@@ -689,6 +694,18 @@ where
             }
             Err(e) => Err(format!("bridge rejected a valid response: {e}")),
         }
+    }
+    fn bad_item(&mut self, key: ReqKey) -> Option<bool> {
+        let (id, _op) = self.ids.get(&key).copied()?;
+        let many = self.bridge.registry().iter().any(|(i, k)| *i == id && *k == crux_core::verif::EntryKind::Many);
+        if !many {
+            return None;
+        }
+        let garbage: &[u8] = match self.wire {
+            Wire::Bincode => &[0xff],
+            Wire::Json => b"{\"no",
+        };
+        Some(matches!(self.bridge.handle_response(id, garbage), Err(BridgeError::DeserializeOutput(_))))
     }
     /// A byte-level shell cannot drop a request value. What it can do to a one-shot is answer it with
     /// bytes that do not decode: the response is rejected, and the request is not outstanding any more
